@@ -207,7 +207,7 @@ Proof.
   intros f (_ & _ & _ & _ & IHloop & _) cid segs n w L P N H.
   rewrite conn_writev_loop_S. cbv zeta.
   apply I_opened_fd in H. set (fd := c_fd (wc w cid)) in *.
-  destruct (sys_wr cid fd (List.concat (firstn 1024 segs)) true w) as [k w1] eqn:Hs.
+  destruct (sys_wr cid fd (List.concat (firstn iov_max segs)) true w) as [k w1] eqn:Hs.
   assert (H1 := I_sys_wr_open L P N cid fd _ true w k w1 H Hs).
   destruct k as [sent ex|e|].
   - destruct (List.concat (drop_sent sent segs)) as [|r0 rest] eqn:Hz; [cbn [snd]; eapply Iv_X_Rel; exact H1|].
